@@ -284,6 +284,9 @@ func vfFieldMismatch(f vfAFrame, fr Frame) string {
 		if f.Prio == "ok" && (x.Priority.StreamDep != 3 || !x.Priority.Exclusive || x.Priority.Weight != 200) {
 			return fmt.Sprintf("priority fields %+v, sent exclusive dep 3 weight byte 200", x.Priority)
 		}
+		if f.Prio != "ok" && !x.HasPriority() && x.Priority != (PriorityParam{}) {
+			return fmt.Sprintf("priority fields %+v on a frame sent without any", x.Priority)
+		}
 	case *PriorityFrame:
 		p := vfFill(5)
 		if x.StreamDep != be(p)&0x7fffffff || x.Exclusive != (p[0]&0x80 != 0) || x.Weight != p[4] {
@@ -453,6 +456,69 @@ func TestVFC19Read(t *testing.T) {
 		}
 		if len(res.Samples) < 5 && res.Steps%977 == 0 {
 			res.Samples = append(res.Samples, map[string]any{"open_header_block_on": cont, "frame": f, "bytes": fmt.Sprintf("%x", vfTruncB(fb, 40)), "real": got, "rfc_allows": allowed})
+		}
+	}
+	// one long-lived reader: every self-contained accepted frame of the graph, in a seeded order, through ONE Framer - as a connection
+	// reads them - once as configured by default and once with SetReuseFrames (frame objects recycled between reads): each frame must
+	// come out with the fields it was sent with, whatever was read before it
+	type vfSeqItem struct {
+		f  vfAFrame
+		fb []byte
+	}
+	var seq []vfSeqItem
+	pingB := vfFrameBytes(6, 0, 0, false, []byte{1, 2, 3, 4, 5, 6, 7, 8})
+	for _, e := range g.Edges {
+		var from int
+		json.Unmarshal(e[0], &from)
+		if vfInt(g.Nodes[from]["cont"]) != 0 {
+			continue
+		}
+		var args []vfAFrame
+		json.Unmarshal(e[3], &args)
+		fb := args[0].bytes()
+		if len(fb) > 20000 {
+			continue
+		}
+		fr0 := NewFramer(io.Discard, bytes.NewReader(append(append([]byte{}, fb...), pingB...)))
+		fr0.SetMaxReadFrameSize(maxRead)
+		if _, err := fr0.ReadFrame(); err != nil {
+			continue
+		}
+		if nf, err := fr0.ReadFrame(); err != nil || nf.Header().Type != FramePing {
+			continue // leaves a header block open (or is not accepted): not self-contained
+		}
+		seq = append(seq, vfSeqItem{args[0], fb})
+	}
+	for round := 0; round < vfEnvInt("VF_SEQ_ROUNDS", 3); round++ {
+		rng.Shuffle(len(seq), func(i, j int) { seq[i], seq[j] = seq[j], seq[i] })
+		var all []byte
+		for _, it := range seq {
+			all = append(all, it.fb...)
+		}
+		for _, reuse := range []bool{false, true} {
+			fr := NewFramer(io.Discard, bytes.NewReader(all))
+			fr.SetMaxReadFrameSize(maxRead)
+			if reuse {
+				fr.SetReuseFrames()
+			}
+			for i, it := range seq {
+				got, err := fr.ReadFrame()
+				if err != nil {
+					res.violate(map[string]any{"check": "C19", "kind": "read_outcome", "frame_type": it.f.T, "reader": "long_lived"},
+						fmt.Sprintf("long-lived Framer (reuse=%v): frame %d of the sequence, %+v, accepted by a fresh Framer, fails with %v", reuse, i, it.f, err), nil)
+					break
+				}
+				if m := vfFieldMismatch(it.f, got); m != "" {
+					prev := "-"
+					if i > 0 {
+						prev = fmt.Sprintf("%+v", seq[i-1].f)
+					}
+					res.violate(map[string]any{"check": "C19", "kind": "read_fields", "frame_type": it.f.T, "reader": "long_lived"},
+						fmt.Sprintf("long-lived Framer (reuse=%v): frame %+v came out different from what was sent: %s (frame read before it: %s)", reuse, it.f, m, prev), nil)
+					break
+				}
+				res.Actions["long_lived_reader_frames"]++
+			}
 		}
 	}
 	res.Paths = res.Steps
